@@ -245,9 +245,24 @@ func (reg *ResourceRegistry) Purge(keep int) {
 	reg.RLock()
 	defer reg.RUnlock()
 
+	storagePaths := reg.storagePaths()
 	for _, res := range reg.resources {
-		res.Purge(keep)
+		res.purge(keep, storagePaths)
 	}
+}
+
+// storagePaths returns the storage paths of all versions of all resources.
+// The caller must hold the lock of the registry.
+func (reg *ResourceRegistry) storagePaths() map[string]struct{} {
+	storagePaths := make(map[string]struct{})
+	for _, res := range reg.resources {
+		res.Lock()
+		for _, rv := range res.Versions {
+			storagePaths[rv.storagePath()] = struct{}{}
+		}
+		res.Unlock()
+	}
+	return storagePaths
 }
 
 // ResetResources removes all resources from the registry.
